@@ -83,6 +83,7 @@ func (h *nodeHeartbeat) run() {
 			m.Elem().FieldByName("CustomMode").SetUint(0)
 			m.Elem().FieldByName("SystemStatus").SetUint(4) // MAV_STATE_ACTIVE
 			m.Elem().FieldByName("MavlinkVersion").SetUint(uint64(h.node.Dialect.Version))
+			verifPoint("hb.send", nil)
 			h.node.WriteMessageAll(m.Interface().(message.Message)) //nolint:errcheck
 
 		case <-h.terminate:
